@@ -33,9 +33,20 @@ class C17(object):
             "normalize) -- everything above is then checked on the second decomposition of that same object; (wide) sources "
             "with 4..20 symbols (up to 14 for I_wedge, whose cost on the real code is exponential in the alphabet) that "
             "share symbol values, structured sparse supports (relabellings, shifts, coarsenings, blocks of a base variable "
-            "plus a few stray outcomes). Non-trivial = 3 sources or >= 4 positive outcomes")
+            "plus a few stray outcomes); (infer) three sources on sparse / functionally structured supports and three-source "
+            "gates with the incomplete classes PID_RR / PID_CT (closed-form bivariate measures) and, on a few gates, PID_BROJA, "
+            "so that the inference rules of BaseIncompletePID run (everything above a redundancy equal to the total, nodes "
+            "sandwiched between equal redundancies, redundancies taken from the decomposition over the node's own sources, "
+            "the last undetermined atom when all the others were pre-assessed): judged by the clauses above plus "
+            "equivariance under one drawn permutation of the sources. On every case whose decomposition can be re-read "
+            "cheaply: pid[node] vs get_pi(node), the printed table (str / repr under repr.print) vs get_red / get_pi of "
+            "every node, the lattice's own order relation vs the model's order, and pid == / != another decomposition of "
+            "the same sources vs the atoms (and redundancies) read from both. "
+            "Non-trivial = 3 sources or >= 4 positive outcomes")
     tolerances = {'permutation equivariance': '1e-6 for closed-form measures, 5e-4 for measures with an optimiser inside (CCS, RAV, GH)', 'identities': 'atol 1e-6 (dit uses isclose(atol=1e-5, rtol=1e-5) for its flags; values within 1e-6..1e-4 of a flag threshold are not judged)',
-                  'closed forms': 'atol 1e-9'}
+                  'closed forms': 'atol 1e-9',
+                  'printed table': '4 decimals: |shown - value| <= 5.1e-5, or shown 0 when |value| <= 1.002e-3 (to_string clamps values within 1e-3 of 0)',
+                  '== / !=': 'expected from the numbers read (dit: isclose(atol=1e-5, rtol=1e-5) on every atom, and every redundancy for incomplete classes); not judged when some difference lies within a factor 10 of that threshold or a value is undetermined'}
     exhaustive = {}
     case_timeout = 25     # seconds; some measures run numerical optimisers
     trusted_extra = ["the redundancy lattice comes from the /verif/pyshim lattices shim (free_distributive_lattice); its node set and order are compared with the Lean model on every case",
@@ -126,6 +137,8 @@ class C17(object):
         for c in self.gen_seq(rng, 8 if tier == 'quick' else 96):
             yield c
         for c in self.gen_wide(rng, 10 if tier == 'quick' else 100):
+            yield c
+        for c in self.gen_infer(rng, 12 if tier == 'quick' else 120):
             yield c
 
     # ---- stream 2: the same Distribution object, decomposed, changed in place, decomposed again
@@ -220,8 +233,101 @@ class C17(object):
                    'addr': rng.choice(['default', 'explicit', 'names', 'names-default']),
                    'dense': n <= 6 and rng.random() < 0.3, 'style': 'wide', 'tw': 1, 'pre': None, 'shape': shape}
 
+    # ---- stream 4: three sources, incomplete classes, supports on which the inference rules of BaseIncompletePID fire
+    INFER_GATES = {'rdn3': ['0000', '1111'], 'rdn2n': ['0000', '0010', '1101', '1111'],
+                   'dup-xor': ['0000', '0011', '1101', '1110'],
+                   'copy01': ['0000', '0101', '1002', '1103', '0010', '0111', '1012', '1113'],
+                   'pair': ['0000', '0110', '1020', '1131'], 'pair-det': ['0000', '0110', '1021', '1131']}
+    INFER_FAMILIES = ['const', 'dupdet', 'dup', 'det', 'pair', 'xor', 'free']
+
+    @staticmethod
+    def antichains(ns):
+        """Nodes of the redundancy lattice over range(ns), each a sorted tuple of sorted index tuples."""
+        subsets = [s for r_ in range(1, ns + 1) for s in itertools.combinations(range(ns), r_)]
+        nodes = []
+        for r_ in range(1, len(subsets) + 1):
+            for fam in itertools.combinations(subsets, r_):
+                if all(not (set(a) < set(b) or set(b) < set(a)) for a, b in itertools.combinations(fam, 2)):
+                    nodes.append(tuple(sorted(fam, key=lambda s: (len(s), s))))
+        return nodes
+
+    @staticmethod
+    def infer_table(rng, family):
+        """Three sources and a target on a thin support with one structural relation:
+        const: one source is constant; dup: one source copies another; det: the target copies a source;
+        dupdet: two sources and the target coincide; pair: one source is the pair of the other two;
+        xor: the target is the sum of two sources mod 2; free: none."""
+        for _ in range(50):
+            alph = [list(range(rng.choice([2, 2, 3]))) for _ in range(4)]
+            full = [list(o) for o in itertools.product(*alph)]
+            rows = rng.sample(full, rng.randint(3, min(7, len(full))))
+            a, b, c = rng.sample(range(3), 3)
+            for o in rows:
+                if family == 'const':
+                    o[c] = 0
+                elif family == 'dup':
+                    o[b] = o[a]
+                elif family == 'det':
+                    o[3] = o[a]
+                elif family == 'dupdet':
+                    o[b] = o[a]
+                    o[3] = o[a]
+                elif family == 'pair':
+                    o[c] = 3 * o[a] + o[b]
+                elif family == 'xor':
+                    o[3] = (o[a] + o[b]) % 2
+            uniq = []
+            for o in rows:
+                if o not in uniq:
+                    uniq.append(o)
+            if len(uniq) >= 2 and len(set(o[3] for o in uniq)) >= 2:
+                return uniq
+        return [[0, 0, 0, 0], [1, 1, 1, 1]]
+
+    def gen_infer(self, rng, n):
+        x_top = [[0, 1], [0, 2], [1, 2]]
+        for j in range(n):
+            slot = j % 12
+            cls = rng.choice(['PID_RR', 'PID_CT'])
+            family = {2: 'dupdet', 3: 'const', 4: 'dupdet', 5: 'const'}.get(slot) or rng.choice(self.INFER_FAMILIES)
+            cls = {2: 'PID_RR', 3: 'PID_CT', 4: 'PID_CT', 5: 'PID_RR'}.get(slot, cls)
+            if family in ('det', 'xor', 'free'):
+                # little can be inferred on these: I_triangle's decomposition stays mostly undetermined and the real code's
+                # search over subsets of undetermined atoms (exponential in their number) takes from seconds to minutes
+                cls = 'PID_RR'
+            if slot == 0 or (slot >= 6 and rng.random() < 0.25):
+                family = 'gate:' + (rng.choice(['rdn2n', 'copy01', 'dup-xor', 'pair-det', 'rdn3']) if slot == 0
+                                    else rng.choice(sorted(self.INFER_GATES)))
+                outs = [[int(ch) for ch in o] for o in self.INFER_GATES[family[5:]]]
+            else:
+                outs = self.infer_table(rng, family)
+            pv = self.positive_vector(rng, len(outs)) if rng.random() < 0.7 else [Fraction(1, len(outs))] * len(outs)
+            c = {'outs': outs, 'pmf': [str(p) for p in pv], 'ns': 3, 'cls': cls,
+                 'addr': rng.choice(['default', 'explicit', 'names', 'names-default']),
+                 'dense': rng.random() < 0.2, 'style': 'infer', 'tw': 1, 'pre': None, 'shape': family}
+            perm = list(rng.choice([pm for pm in itertools.permutations(range(3)) if list(pm) != [0, 1, 2]]))
+            if slot == 0:
+                # a measure that only defines unique informations: every redundancy below the single sources is inferred
+                c['cls'] = 'PID_BROJA'
+            elif slot == 1:
+                # every atom but one pre-assessed by the caller (addressed by index): the last one follows from the total
+                # (on a full support nothing about {01}{02}{12} can be inferred from I_triangle's pairwise redundancies)
+                skip = x_top if (j < 12 or rng.random() < 0.6) else [list(s) for s in rng.choice(self.antichains(3))]
+                if j < 12 or rng.random() < 0.6:
+                    outs_, pv = self.small_table(rng, 3, 'random')
+                    c.update({'outs': outs_, 'pmf': [str(p) for p in pv], 'shape': 'full'})
+                c['cls'] = 'PID_CT'
+                c['addr'] = 'default'
+                c['pre_more'] = {'skip': skip,
+                                 'values': 'mmi' if rng.random() < 0.5 else
+                                 [[[list(s) for s in nd], rng.choice([0.0, 0.0, 0.05, 0.3])] for nd in self.antichains(3)
+                                  if [list(s) for s in nd] != skip]}
+            else:
+                c['perm'] = perm
+            yield c
+
     def shrink(self, case):
-        if case['cls'] != 'PID_MMI' and not case.get('pre'):
+        if case['cls'] != 'PID_MMI' and not case.get('pre') and not case.get('pre_more'):
             # (a pre-assessed atom belongs to the incomplete class it was generated for: with another class the case
             # is a different experiment, not a smaller one)
             c = dict(case)
@@ -273,16 +379,27 @@ class C17(object):
         d.validate()
         return d
 
-    def make_pid(self, case, d):
+    def make_pid(self, case, d, extra_pis=None):
         dit = import_dit()
         import dit.pid as pid
         cls = getattr(pid, case['cls'])
         ns = case['ns']
         tw = case.get('tw', 1)
         kw = {}
+        if extra_pis:
+            kw['pis'] = dict(extra_pis)      # (keys are node labels of this addressing mode)
         if case.get('pre'):
             node = tuple(tuple(s) for s in case['pre'][0])
             kw['pis'] = {node: case['pre'][1]}
+        if case.get('pre_more'):
+            pm = case['pre_more']
+            skip = tuple(tuple(s) for s in pm['skip'])
+            if pm['values'] == 'mmi':
+                # the atoms of I_mmi on the same distribution and sources (a complete, consistent decomposition)
+                ref = pid.PID_MMI(d.copy())
+                kw['pis'] = {nd: float(ref.get_pi(nd)) for nd in ref._lattice if nd != skip}
+            else:
+                kw['pis'] = {tuple(tuple(s) for s in nd): float(v) for nd, v in pm['values']}
         if case['addr'] in ('default', 'names-default'):
             return cls(d, **kw)
         if case['addr'] == 'default-sources':
@@ -310,6 +427,10 @@ class C17(object):
         r.features.append('source-symbols=%s' % ('<=3' if na <= 3 else '4-8' if na <= 8 else '9-12' if na <= 12 else '13+'))
         if case.get('prior'):
             r.features.append('seq=%s' % case['prior']['how'])
+        if case['style'] == 'infer':
+            r.features.append('infer=%s' % case.get('shape', '?').split(':')[0])
+        if case.get('pre_more'):
+            r.features.append('all-atoms-but-one-preassessed')
         try:
             self.run_inner(case, drv, r)
         except core.DriverError:
@@ -352,10 +473,29 @@ class C17(object):
         if keyof(self.node_key(p._lattice.top, case)) != keyof(top) or keyof(self.node_key(p._lattice.bottom, case)) != keyof(bottom):
             r.mismatch = 'top/bottom of the lattice differ'
             return
+        # the order relation the lattice object itself carries (a <= b), on every pair of nodes
+        le = {x: set(keyof(b) for b in bl) | {x} for x, bl in zip(mnodes, below)}
+        for x in mnodes:
+            for y in mnodes:
+                got = bool(p._lattice._relationship(pnodes[x], pnodes[y]))
+                if got != (x in le[y]):
+                    r.mismatch = 'order relation of the lattice: %s <= %s is %s, the model says %s' % (x, y, got, x in le[y])
+                    return
         reds = {x: float(p.get_red(pnodes[x])) for x in mnodes}
         pis = {x: float(p.get_pi(pnodes[x])) for x in mnodes}
         flags = {'consistent': bool(p.consistent), 'complete': bool(p.complete), 'nonnegative': bool(p.nonnegative)}
         r.detail = {'reds': {str(k): v for k, v in reds.items()}, 'pis': {str(k): v for k, v in pis.items()}, 'flags': flags}
+        # ---- the other ways the decomposition reports itself: item access, the printed table
+        same = lambda a, b: a == b or (math.isnan(a) and math.isnan(b))
+        for x in mnodes:
+            v = float(p[pnodes[x]])
+            if not same(v, pis[x]):
+                r.oracle_fail = 'pid[%s] = %r but get_pi of that node = %r' % (x, v, pis[x])
+                return
+        if self.rereads_cheaply(p, case, flags):
+            self.check_table(p, case, mnodes, pnodes, reds, pis, r)
+            if r.oracle_fail:
+                return
         sources = [[i] for i in range(ns)]
         target = list(range(ns, ns + case.get('tw', 1)))
         tot = float(coinformation(self.build(dict(case, addr='explicit')), [list(range(ns)), target]))
@@ -445,8 +585,11 @@ class C17(object):
                                      % (x, reds[x], ref[x], self.meet_labels(rows, x)[1], len(rows)))
                     return
         # ---- permutation equivariance
-        if (case['cls'] in ALWAYS or ns == 2) and not case.get('pre') and case['cls'] not in NOT_EQUIVARIANT_BY_DESIGN:
-            for perm in itertools.permutations(range(ns)):
+        if ((case['cls'] in ALWAYS or ns == 2 or case.get('perm')) and not case.get('pre') and not case.get('pre_more')
+                and case['cls'] not in NOT_EQUIVARIANT_BY_DESIGN):
+            # (every permutation; the three-source 'infer' cases of the incomplete classes name the one they are run with)
+            perms = [tuple(case['perm'])] if case.get('perm') else list(itertools.permutations(range(ns)))
+            for perm in perms:
                 if list(perm) == list(range(ns)):
                     continue
                 d2 = self.build(case, perm)
@@ -466,7 +609,15 @@ class C17(object):
                         if case['cls'] == 'PID_CCS':
                             m = min(self.ccs_min_term(p._dist, pnodes[x], p._target), self.ccs_min_term(p2._dist, nd2, p2._target))
                             r.detail = dict(r.detail or {}, ccs_min_pointwise_term=m)
-                            if m < 5e-3:
+                            # the mechanism itself, observed: which events enter I_ccs's sum is decided by the SIGNS of
+                            # pointwise terms on the numerically optimised maximum-entropy distribution; the multiset of
+                            # sign patterns over the events is invariant under permuting the sources for an exact
+                            # maximum-entropy distribution.  If the two optimiser runs disagree on it, an event has
+                            # changed sides: the known discontinuity, not the permutation handling of the lattice
+                            flipped = (self.ccs_sign_patterns(p._dist, pnodes[x], p._target)
+                                       != self.ccs_sign_patterns(p2._dist, nd2, p2._target))
+                            r.detail['ccs_sign_patterns_differ'] = bool(flipped)
+                            if m < 5e-3 or flipped:
                                 r.site = 'dit.pid.PID_CCS.near-sign-change'
                         if case['cls'] == 'PID_GH':
                             # I_GH is computed by a randomised optimiser (SciPy basin hopping on NumPy's global generator).
@@ -491,6 +642,105 @@ class C17(object):
                             if spread > ptol:
                                 r.site = 'dit.pid.PID_GH.optimiser-random'
                         return
+                # == / != between the two decompositions (same node labels, other probabilities), read against their numbers
+                self.check_equality(p, p2, case, mnodes, pnodes, reds, pis, r, 'the decomposition of the sources permuted by %s' % (perm,))
+                if r.oracle_fail:
+                    return
+            if case['cls'] in ('PID_RR', 'PID_CT') and (ns == 2 or case['style'] == 'infer'):
+                # the same input decomposed with the bottom atom pre-assessed 0.3 above what it is here: the measured
+                # redundancies agree, the atoms do not
+                b0 = pis[keyof(bottom)]
+                p3 = self.make_pid(case, self.build(case), extra_pis={pnodes[keyof(bottom)]: (0.0 if math.isnan(b0) else b0) + 0.3})
+                self.check_equality(p, p3, case, mnodes, pnodes, reds, pis, r, 'the same input with the bottom atom pre-assessed 0.3 higher')
+                if r.oracle_fail:
+                    return
+
+    # ---- the decomposition's other self-reports
+    @staticmethod
+    def rereads_cheaply(p, case, flags):
+        """str() / repr() ask for the flags again, i.e. run _compute three more times. That costs nothing for the classes
+        defined on every antichain (cached redundancies) and for the bivariate incomplete ones once their inference has
+        nothing left to solve; classes that only define unique informations re-run their optimiser every time."""
+        from dit.pid.pid import BaseIncompletePID, BaseBivariatePID
+        if not isinstance(p, BaseIncompletePID):
+            return True
+        return isinstance(p, BaseBivariatePID) and (case['ns'] == 2 or flags['complete'] or case['style'] == 'infer')
+
+    @staticmethod
+    def feature_once(r, f):
+        if f not in r.features:
+            r.features.append(f)
+
+    def check_table(self, p, case, mnodes, pnodes, reds, pis, r):
+        """str(pid) is a table with one row per lattice node: label, redundancy, atom (4 decimals; to_string shows values
+        within 1e-3 of zero as 0). repr(pid) is that table when ditParams['repr.print'] is set."""
+        from dit.params import ditParams
+        text = str(p)
+        conv = lambda v: int(v) if v.isdigit() else 'ABCD'.index(v)
+        rows = []
+        for line in text.splitlines():
+            cells = [c.strip() for c in line.strip().strip('|').split('|')]
+            if len(cells) == 3 and cells[0].startswith('{') and cells[0].endswith('}'):
+                try:
+                    sets = [sorted(conv(v) for v in m.split(':')) for m in cells[0][1:-1].split('}{')]
+                    sets.sort(key=lambda s_: (len(s_), s_))
+                    rows.append((tuple(tuple(s_) for s_ in sets), float(cells[1]), float(cells[2])))
+                except ValueError:
+                    r.oracle_fail = 'the printed table has a row that cannot be read: %r' % line
+                    return
+        if sorted(k for k, _, _ in rows) != sorted(mnodes):
+            r.oracle_fail = 'the printed table lists the nodes %s, the lattice has %s' % (sorted(k for k, _, _ in rows), sorted(mnodes))
+            return
+
+        def shown_ok(shown, v):
+            if math.isnan(v) or math.isnan(shown):
+                return math.isnan(v) and math.isnan(shown)
+            return abs(shown - v) <= 5.1e-5 or (shown == 0 and abs(v) <= 1.002e-3)
+        for k, sr, sp in rows:
+            if not shown_ok(sr, reds[k]) or not shown_ok(sp, pis[k]):
+                r.oracle_fail = ('the printed table shows node %s with redundancy %r and atom %r, get_red / get_pi give %r and %r'
+                                 % (k, sr, sp, reds[k], pis[k]))
+                return
+        old = ditParams['repr.print']
+        try:
+            ditParams['repr.print'] = True
+            rp = repr(p)
+            ditParams['repr.print'] = False
+            rd = repr(p)
+        finally:
+            ditParams['repr.print'] = old
+        if rp != text:
+            r.oracle_fail = 'with repr.print set, repr(pid) is not the table str(pid) gives: %r' % rp[:200]
+            return
+        if not isinstance(rd, str):
+            r.oracle_fail = 'repr(pid) is not a string'
+            return
+        r.features.append('table-read')
+
+    def check_equality(self, p, p2, case, mnodes, pnodes, reds, pis, r, what):
+        """pid == other: every atom of the two agrees (dit: isclose with atol = rtol = 1e-5), for the incomplete classes
+        every redundancy too; pid != other is the negation. Expected from the numbers both objects report node by node."""
+        from dit.pid.pid import BaseIncompletePID
+        eq, ne = p == p2, p != p2
+        if not isinstance(eq, (bool, np.bool_)) or bool(ne) != (not bool(eq)):
+            r.oracle_fail = 'pid == other is %r and pid != other is %r (other: %s)' % (eq, ne, what)
+            return
+        pairs = [(x, 'atom', pis[x], float(p2.get_pi(pnodes[x]))) for x in mnodes]
+        if isinstance(p, BaseIncompletePID):
+            pairs += [(x, 'redundancy', reds[x], float(p2.get_red(pnodes[x]))) for x in mnodes]
+        if any(math.isnan(a) or math.isnan(b) for _, _, a, b in pairs):
+            self.feature_once(r, 'eq-undetermined-values-not-judged')
+            return
+        far = [(x, w, a, b) for x, w, a, b in pairs if abs(a - b) > 1e-5 + 1e-5 * abs(b)]
+        if any(0.1 < abs(a - b) / (1e-5 + 1e-5 * abs(b)) < 10 for _, _, a, b in pairs):
+            self.feature_once(r, 'eq-near-threshold-not-judged')
+            return
+        self.feature_once(r, 'eq=%s' % (not far))
+        if bool(eq) != (not far):
+            r.oracle_fail = ('pid == other is %s (other: %s), but %s' % (bool(eq), what,
+                             ('the %s of %s is %r in one and %r in the other' % (far[0][1], far[0][0], far[0][2], far[0][3])) if far
+                             else 'every atom%s agrees' % (' and redundancy' if isinstance(p, BaseIncompletePID) else '')))
+            return
 
     @staticmethod
     def ccs_min_term(d, sources, target):
@@ -518,6 +768,39 @@ class C17(object):
             terms.append(np.log2(np.prod([sub[rv][tuple(e[i] for i in flatten(rv))] ** ((-1) ** len(rv)) for rv in sub_rvs])))
         terms = [abs(float(t)) for t in terms if np.isfinite(t) and not np.isclose(t, 0.0)]
         return min(terms) if terms else 1.0
+
+    @staticmethod
+    def ccs_sign_patterns(d, sources, target):
+        """Sorted list, over the events of the maximum-entropy distribution I_ccs works on, of (sign of the pointwise
+        co-information, sorted signs of the source-target pointwise informations, sign of the joint pointwise information)
+        with iccs.py's own rounding of near-zero terms: a fingerprint that does not depend on the order of the sources."""
+        import numpy as np
+        from dit.algorithms import maxent_dist
+        from dit import modify_outcomes
+        from dit.utils import flatten, powerset
+        sources = tuple(tuple(s) for s in sources)
+        target = tuple(target)
+        rvs = list(range(len(sources) + 1))
+        d = d.coalesce(sources + (target,))
+        marginals = [rvs[:-1]] + [[i, rvs[-1]] for i in rvs[:-1]]
+        d = modify_outcomes(maxent_dist(d, marginals), lambda o: tuple(o))
+        sub_rvs = [rv for rv in powerset(rvs) if rv]
+        sub = {rv: d.marginal(rv) for rv in sub_rvs}
+
+        def sg(t):
+            t = float(t)
+            return 0 if (not np.isfinite(t) or np.isclose(t, 0.0)) else (1 if t > 0 else -1)
+        pats = []
+        with np.errstate(all='ignore'):
+            for e in d.outcomes:
+                if d[e] < 1e-9:
+                    continue
+                pm = sorted(sg(np.log2(sub[(i, rvs[-1])][(e[i], e[-1])] / (sub[(i,)][(e[i],)] * sub[(rvs[-1],)][(e[-1],)])))
+                            for i in rvs[:-1])
+                jp = sg(np.log2(d[e] / (sub[tuple(rvs[:-1])][e[:-1]] * sub[(rvs[-1],)][(e[-1],)])))
+                co = sg(np.log2(np.prod([sub[rv][tuple(e[i] for i in flatten(rv))] ** ((-1) ** len(rv)) for rv in sub_rvs])))
+                pats.append((co, tuple(pm), jp))
+        return sorted(pats)
 
     @staticmethod
     def meet_labels(rows, node):
